@@ -9,6 +9,34 @@ type propInfo struct {
 }
 
 var propTable = map[string]propInfo{
+	"C16": {"proof", "Every parse function of package parser (statement, expression, prefix, infix, list and helper functions, the interceptor wrappers, the registered-operator closures and the constructor) is verified against the frame contract [ctx]: the context stack on return equals the stack on entry, element-wise, on every return path including early error returns (deferred pops are executed by the engine's defer semantics). PushContext/PopContext/CurrentContext/IsInFunction are verified against exact sequence specifications (append, drop-last, last element, membership). Bracketing is stated as call-site obligations: every statement parsed inside ParseBlockStatement sees entry++[Block], the body of a function declaration/expression is parsed with entry++[Function], and no other parse step changes the stack around its sub-steps ([ctx.stable] at every call). newWithOptions/Build establish [Global]; by the frame contract ParseProgram returns with the stack it started with, for every input.", []string{
+		"the 'actual syntactic nesting' is the parser's own recursion: the contracts show the stack equals the chain of enclosing block/function activations (induction over the call tree, Meta M2, not mechanised); whether those activations are ECMAScript's nesting is property C02",
+		"reading fixed in DESIGN.md: a function body is a block inside a function, so directly inside a function body CurrentContext() is BlockContext and IsInFunction() is true",
+		"functions stored in the parser's function-typed fields obey the slot contracts: checked at every store inside the package; plugin interceptors are assumed pass-through and plugin createExpr callbacks are assumed to touch parser state only through the thunk they are given (hypotheses of C04/C05)",
+	}},
+	"C11": {"proof", "Safety obligations (nil dereference, index/slice bounds, nil-map store, failed type assertion, explicit panic) are generated without annotation for every instruction of every function of packages lexer and parser and discharged under the proved invariants (lexInv, parserInv). The error contract is stated on the real functions: ParseProgram returns a non-nil program, err != nil iff len(errors) > 0, and no statement list (program or block) contains a nil or typed-nil entry (loop invariants over the lists; the statement slot contract forbids typed-nil results, which the engine's (tag,payload) interface model distinguishes from nil); the error list only grows ([errors-grow]); statement parsers return nil only after recording an error; every error is recorded through AddErrorAtToken, whose precondition demands a token that came from Lexer.NextToken (ghost predicate LexTok), so every error range is a token range.", []string{
+		"termination of the mutually recursive parse functions is not proved (lexer termination is, see C10); reported as unproved, not assumed",
+		"'no error => all mandatory children present => compiling does not panic' is not mechanised in this revision (expression-level well-formedness contracts and printer safety under it are not written); only the statement-list and error-list clauses are",
+		"LexTok is a ghost predicate whose only introduction rule is the definitional postcondition of Lexer.NextToken",
+		"strconv.ParseInt/ParseFloat, fmt.Sprintf/Errorf are trusted library contracts",
+	}},
+	"C04": {"proof", "Interceptor wrappers are verified with the ghost call trace: each wrapper calls its interceptor exactly once, with the same parser, handing it a thunk that calls the rest of the chain exactly once with the same parser (and the same binding power), and returns that result; the parser state is untouched between wrapper entry and the call of the rest of the chain. The expression wrapper publishes the step's binding power in currentExpressionPrecedence during the call and restores the previous value on every exit; every parse function preserves that field ([cep] in the frame contract), so a re-entrant ParsePrefixExpression/ParseRemainingExpression at any depth continues with the binding power of the innermost wrapper. Variables captured by function literals and assigned by one of them are treated as shared between activations (forgotten after every call), so a saved value hoisted out of the wrapper fails [cep]. Builder.Use*Interceptor append in installation order, Build hands the lists over unchanged, the lexer's NextToken runs the token chain after trivia skipping (C10).", []string{
+		"plugin interceptors are pass-through (interceptor(p, next) == next()): the property's hypothesis, encoded as the 'passthrough' function-variable contract",
+		"installation order of the chain (first installed = outermost) is established by the descending loops of newWithOptions; the closed form chainS/chainE over function values is not mechanised in this revision (Meta M4)",
+		"token interceptor order is not claimed (the property states none)",
+	}},
+	"C05": {"proof", "lexer.Builder.RegisterTokenType and the three parser.Builder.Register*Operator methods are verified against whole-object postconditions: a duplicate is refused with a non-nil error and leaves every operator list and bookkeeping map unchanged; a new operator is appended as exactly that entry and recorded at exactly that key, other keys untouched. NewBuilder's seed sets are verified against the shared specification sets builtinPrefix/builtinInfix/builtinPostfix, and the package-level binding-power table against jsLevel, so the hand-maintained lists cannot drift apart. newWithOptions copies the table into a fresh per-parser map; registerInfixOperator writes exactly the registered level, registerPostfixOperator exactly CALL, other entries untouched. The operand thunks of registered operators are verified (ghost call trace) to perform the same steps as the built-in code paths: infix = read own level from the per-parser table, advance, parse at that level; prefix = advance, parse at UNARY; postfix consumes no token.", []string{
+		"'groups exactly like a built-in operator of that level' follows from identical operand parsing plus the Pratt-parser lemma (Meta M1), not mechanised",
+		"plugin createExpr callbacks affect parser state only by invoking the operand thunk they are handed, any number of times (the frame contract is proved reflexive and transitive by lemma_parseFrame_refl/trans)",
+	}},
+	"C13": {"proof", "The mode flags are outside the modifies clause of every parse function (frame obligations at every store), are set only by newWithOptions from the builder's fields, which Build copies unchanged and only With*Mode writes. The site-local behaviour is stated on the real functions: ExpectSemicolonASI in tolerant mode never records an error and returns true; ParseBlockStatement records the unclosed-block error exactly in strict mode; ParseRemainingExpressionWithPrecedence never continues an expression across a line break before '(' or '[' in smart mode and otherwise stops exactly when the strict climbing condition fails.", []string{
+		"lifting site-local equivalence of two runs that differ in a flag to whole-run equivalence is the standard non-interference argument (Meta M3), not mechanised",
+	}},
+	"C14": {"proof", "Sequential isolation as frame/ownership conditions: no parse function modifies anything outside the parser it is given and the lexer that parser owns (modifies clauses, checked at every heap store and map update); newWithOptions returns a fresh parser whose three tables are fresh objects distinct from the package-level table; Build (lexer and parser) has an empty modifies clause on the builder and returns fresh objects; NewBuilder returns fresh bookkeeping maps; package-level variables are only written by package initialisation.", []string{
+		"schedules and the race detector are outside what contracts can state; concurrency safety follows from 'no shared mutable state' (Meta M3)",
+		"backing-array aliasing of slices is not modelled (slice values have value semantics): in-place element writes into a slice shared with a builder are outside the subset and reported as such",
+		"'compiling never modifies the tree', 'source map never changes the code' and 'debug string = compact compile' are not mechanised in this revision",
+	}},
 	"C10": {"proof", "All lexer functions are verified against contracts stated over the source text: the cursor invariant (line/column are the line-break count and the distance to the last line break of the byte offset, which never leaves the source), exact token starts/ends, tiling (NextToken starts at skipTrivia of the previous offset and ends inside the source), verbatim identifier/number slices with maximal munch for identifiers, keyword classification against the reserved-word list (keyword table invariant proved for package initialisation), operator classification and text, the after-newline flag, EOF exactly at the end and idempotent, absence of panics and termination of every loop (variants). Unbounded in input length; loops by invariants.", []string{
 		"a line break is '\\n'; a lone '\\r' is whitespace for this lexer and for the specification functions",
 		"token interceptors supplied by plugins are pass-through (interceptor(l, next) == next()): the hypothesis of property C04, encoded as the type contract of Interceptor values",
